@@ -485,6 +485,11 @@ impl C17 {
                     // structurally broken here (torn or corrupted): must be an error, never a value
                     outcome_sig.push(1);
                     match got {
+                        // With corrupted bytes the structural reference (Value) can be stricter than a typed
+                        // parse: serde_json does not validate what it skips (e.g. invalid UTF-8 inside the
+                        // string value of a key that corruption made unknown). Nothing of bigdecimal's is
+                        // involved there, so only torn (truncated) frames are held to "must be an error".
+                        Some(Ok(_)) if corrupted > 0 => obs.reach("corrupted_doc_rejected_by_reference_only(not judged)"),
                         Some(Ok(f)) => fails.push(wire_fail("J3-torn-or-broken-frame-is-an-error", w, format!("document {} is not valid JSON as delivered, yet the consumer returned a value (id {})", i, f.id)).focus(json!({"frame": i}))),
                         Some(Err(_)) => {
                             obs.reach("broken_frame_rejected");
